@@ -9,7 +9,7 @@
     content (one OnCreated / OnUpdated / OnDeleted, or none) and that no other
     source is touched.  [active_of] is what the accepted calls leave loaded. *)
 From HV Require Import Base.Prelude C18.Model C18.ModelBlob C18.ModelK8s C18.Spec C18.Proofs C18.ProofsBlob C18.ProofsK8s
-  C18.Accept C18.AcceptProviders C18.AcceptFs C18.AcceptK8s.
+  C18.Accept C18.AcceptProviders C18.AcceptFs C18.AcceptK8s C18.Quiesce.
 
 (** ** What [trace_ok] means (any provider) *)
 
@@ -585,3 +585,33 @@ Theorem C18_k8s_accept_next_generation_loads :
   last (map snd (k8s_dyn_steps ok pclash ksrcs2 2 ks_empty a_empty h)) [] = [None; Some 9].
 Proof. exact k8s_next_generation_loads. Qed.
 Print Assumptions C18_k8s_accept_next_generation_loads.
+
+(** ** Event-driven providers against a processor whose answer depends on what is loaded: open findings *)
+
+(** [quiescent]: no source is left whose latest version that is valid in itself is not loaded although nothing
+    holds its path; a source showing no valid version has nothing loaded.
+
+    C18-F10 (Kubernetes, replayed on the real code): RuleSet A holds a path; RuleSet B (valid, same path) is refused;
+    A is deleted — B could be applied now, it exists and is valid, and it is not loaded; a relist delivering B with the
+    same generation does not help (update handler ignores it), only a new generation does. *)
+Theorem C18_k8s_F10_refuted :
+  let ok := fun _ : cid => true in
+  k8s_wf 2 hk_F10 = true /\ k8s_guard_F10 ok 2 0 hk_F10 = true /\
+  k8s_dyn_repo_after ok 2 hk_F10 = map (fun _ => None) k8c_srcs /\
+  free_for pclash k8c_srcs (repo_fun k8c_srcs (k8s_dyn_repo_after ok 2 hk_F10)) (Sid 1) 5 = true /\
+  k8s_dyn_repo_after ok 2 (hk_F10 ++ [KRelist [kB1]]) = map (fun _ => None) k8c_srcs /\
+  nth 1 (k8s_dyn_repo_after ok 2 (hk_F10 ++ [KWatch WModified kB2])) None = Some 9.
+Proof. exact k8s_F10_refuted. Qed.
+Print Assumptions C18_k8s_F10_refuted.
+
+(** C18-F11 (file system, replayed): file 1 is refused while file 0 holds the path; file 0 is removed — file 1 stays
+    unloaded until the next event for it *)
+Theorem C18_fs_F11_refuted :
+  let ok := fun _ : cid => true in
+  fs_guard_F11 ok 2 hf_F11 = true /\
+  fs_dyn_repo_after ok 2 hf_F11 = [None; None] /\
+  free_for pclash [Sid 0; Sid 1] (repo_fun [Sid 0; Sid 1] (fs_dyn_repo_after ok 2 hf_F11)) (Sid 1) 5 = true /\
+  fs_dyn_repo_after ok 2 (hf_F11 ++ [FsNotify 1 [OpChmod]]) = [None; Some 5] /\
+  fs_guard_F11 ok 2 [FsSet 0 (CValid 1); FsNotify 0 [OpCreate]; FsSet 0 (CValid 2); FsNotify 0 [OpWrite]] = false.
+Proof. exact fs_F11_refuted. Qed.
+Print Assumptions C18_fs_F11_refuted.
